@@ -305,7 +305,7 @@ func (r *rpcRun) checkResult(id int, val spec.Value, st status.Status) {
 	s.cliSt = st
 	simrt.Logf("call%d client result: %s (%d bytes)", id, stName(st), len(val))
 	if st.OK() {
-		if s.starts != 1 {
+		if s.starts != 1 && !c.Probe {
 			r.fail("C04-ok-without-handler", "call %d returned OK but its handler ran %d times", id, s.starts)
 		}
 		if c.Panic || c.Code != "ok" || c.Skip {
